@@ -87,6 +87,46 @@ INFO = {
  'C19-3b': ('heap_string destroy: deallocation size without `*sizeof(char_type)` (wrong for wchar_t)', 'before'),
  'C20-3a': ('JSONPath `tokenize()`: one-entry regex cache in function-local statics', 'before'),
  'C20-3b': ('`min_contains_keyword` gains a `count_` member set from the const `do_validate` through a unique_ptr', 'before'),
+ 'C01-4a': ('parser: `escape_tag_ = noesc` hoisted into `parse_string` (re-entered after every escape / chunk boundary)', 'after'),
+ 'C01-4b': ('`escape_string` return count skips UTF-8 continuation bytes (column accounting differs from the noesc route)', 'after'),
+ 'C02-4a': ('json_decoder: keyed array pushed with arrival index 0 instead of `index_++`', 'before'),
+ 'C02-4b': ('source adaptor: `bof_` cleared only when a byte order mark was skipped', 'after'),
+ 'C03-4a': ('staj_object_iterator: key taken as a view before `cursor.next()`', 'after'),
+ 'C03-4b': ('CSV parser: `--level_` before the mark-level test in one of five sibling closes', 'before'),
+ 'C04-4a': ('bigint `operator>>=`: stale storage view after resize', 'before'),
+ 'C04-4b': ('grisu3 `normalized_boundaries`: `significand_is_zero` test rewritten wrongly', 'declined'),
+ 'C05-4a': ('bigint storage `resize`: length assigned before `reserve()`', 'after'),
+ 'C05-4b': ('CSV column cache index used without the `< column_names_.size()` guard', 'before'),
+ 'C06-4a': ('MessagePack timestamp64 decode: seconds mask 32 bits instead of 34', 'after'),
+ 'C06-4b': ('binary_stream_sink::append: block copied into the buffer, cursor not advanced before the flush', 'after'),
+ 'C07-4a': ('decimal128_to_chars: exponent shift 17 instead of 15 in the large-significand form', 'after'),
+ 'C07-4b': ('CBOR read_item: final `other_tags_[item_tag] = false` removed', 'after'),
+ 'C08-4a': ('MessagePack write_timestamp: timestamp64 payload written as uint32', 'before'),
+ 'C08-4b': ('json_visitor typed array of int16: elements sent as `uint64_value`', 'after'),
+ 'C09-4a': ('sorted_json_object::insert(range): `std::stable_sort` -> `std::sort`', 'before'),
+ 'C09-4b': ('`uninitialized_copy_a`: byte string copied with ext tag 0', 'after'),
+ 'C10-4a': ('ordered object `flatten_and_destroy`: `for (auto kv : data_)` (deep copies, recursive destruction)', 'after'),
+ 'C10-4b': ('CBOR: `--nesting_depth_` moved from `end_classical_array_storage` to the multi-dim close', 'after'),
+ 'C11-4a': ('eval_context(parent, index, flags): `flags_(parent.flags_ | flags)`', 'after'),
+ 'C11-4b': ('additionalProperties: annotation test asks the per-property child context', 'after'),
+ 'C12-4a': ('jsonpath compile: a selector constructed without `selector_id++`', 'before'),
+ 'C12-4b': ('path_generator::generate: option masks of the two overloads differ (written against the tree before F44 was repaired; kept as self-test variant `c12-revert-f44-one-overload`)', 'after'),
+ 'C13-4a': ('sort_by: `std::stable_sort` -> `std::sort`', 'after'),
+ 'C13-4b': ('UTF-8 -> UTF-32 convert: legality bound `max_bmp` instead of `max_legal_utf32`', 'after'),
+ 'C14-4a': ('ordered object find: `memcmp(k.data(), key.data(), key_length)` (element count as byte count, wrong for wchar_t)', 'after'),
+ 'C14-4b': ('`add_if_absent(root, string, value, ec)` forwards to `add`', 'after'),
+ 'C15-4a': ('`jsonpatch_errc` renumbered: `invalid_patch` == 0', 'after'),
+ 'C15-4b': ('move: undo entry of the removal logged only after the insertion', 'after'),
+ 'C16-4a': ('short_string_storage copy: `memcpy` length without `sizeof(char_type)`', 'after'),
+ 'C16-4b': ('compare(): double vs uint64 reads `int64_storage`', 'after'),
+ 'C17-4a': ('`find_first_not_set` returns `indices.count()`', 'after'),
+ 'C17-4b': ('cursor-to-json `uint64_value` case drops the tag', 'before'),
+ 'C18-4a': ('csv parse_event(uint64_t): records `staj_events::int64_value`', 'after'),
+ 'C18-4b': ('TOON parse_delimited_values: backslash skip only before a quote', 'after'),
+ 'C19-4a': ('heap_string: `aligned_size` argument differs between create and destroy', 'after'),
+ 'C19-4b': ('ordered_json_object(val, alloc): allocator base initialised from `val.get_allocator()`', 'after'),
+ 'C20-4a': ('`dtoa_general` slow path: `static char buffer[100]`', 'after'),
+ 'C20-4b': ('tokenize_function: `mutable` pattern/regex cache', 'before'),
 }
 
 def main():
